@@ -1280,6 +1280,7 @@ Open Scope Z_scope.
 Definition DA (n c pc : Z) : datom := mkDAtom n None c false pc false.
 Definition E (o : Z) : dbond := mkDBond (Some o) (Some o).
 (* hash(atom) of every dynamic atom, Morgan.int_adjacency (hash(bond)), Morgan.atoms_order (dict in insertion order) *)
+Definition py_cgr_atoms_order := cgr_atoms_order hash63.
 Definition cgo_parts (c : cgr) (hs : labels) (adj : iadj) (ord : pyres labels) : list bool :=
   [ labels_eqb (cgr_atom_labels hash63 c) hs;
     list_eqb (pair_eqb Z.eqb labels_eqb) (cgr_int_adjacency hash63 c) adj;
